@@ -139,6 +139,11 @@ def scenarios(prop, tier):
         # a later SETTINGS frame that does NOT mention MAX_CONCURRENT_STREAMS leaves the advertised limit alone
         S.append(("get6-init2-then-iws-only", gets(6), dict(init_settings={SC.MAX_CONCURRENT_STREAMS: 2}, settings=[{"iws": 70000}]), {}))
         S.append(("get5-down2-then-mfs-only", gets(5), dict(settings=[{"mcs": 2}, {"mfs": 20000}]), {}))
+        # the pool at its connection limit with a request for ANOTHER origin queued: a connection that has a
+        # request waiting for a stream slot is in use - it must not be reclaimed as idle under that request
+        other = [dict(name="r1", url="http://a.test/1"), dict(name="r2", url="http://a.test/2"), dict(name="r3", url="http://b.test/3")]
+        S.append(("get2-init1+other-origin-max1", other, dict(init_settings={SC.MAX_CONCURRENT_STREAMS: 1}), {"pool": dict(max_connections=1)}))
+        S.append(("get3-init1+other-origin-max1", other[:2] + [dict(name="r3", url="http://a.test/3"), dict(name="r4", url="http://b.test/4")], dict(init_settings={SC.MAX_CONCURRENT_STREAMS: 1}), {"pool": dict(max_connections=1)}))
         if not quick:
             S.append(("get5-init2-down1-up3", gets(5), dict(init_settings={SC.MAX_CONCURRENT_STREAMS: 2}, settings=[{"mcs": 1}, {"mcs": 3}]), {}))
             S.append(("get4-rst1-rst5", gets(4), dict(rst=[1, 5]), {}))
@@ -193,7 +198,7 @@ def scenarios(prop, tier):
 
 def make_factory(calls, srv, extra):
     def make():
-        run = H2Run([Call(**c) for c in calls], srv=copy.deepcopy(srv), body_frames=(6, 6) if not extra.get("big") else (extra.get("frame", 16384),))
+        run = H2Run([Call(**c) for c in calls], pool_kwargs=extra.get("pool"), srv=copy.deepcopy(srv), body_frames=(6, 6) if not extra.get("big") else (extra.get("frame", 16384),))
         if extra.get("big"):
             n = extra["big"]
             run.big_body = (bytes(range(256)) * (n // 256 + 1))[:n]
